@@ -1,9 +1,10 @@
 import DepsDev.Proofs.C03L3Incl
 
 /-!
-# C03 layer L3 for npm, operator `lt`: interval membership of a prerelease candidate
+# C03 layer L3 for npm, operator `lt`: interval membership of a prerelease candidate (operands without tag)
 
-See `C03L3Incl` for the statement (`L1PNpm`) and the proof script.
+See `C03L3Incl` for the statements and the proof script; `C03L3InclLtP` has the tagged operands
+and the assembled `L1PNpm .lt`.
 -/
 namespace DepsDev.Proofs.C03
 
@@ -13,12 +14,6 @@ set_option linter.unusedSimpArgs false
 set_option linter.unusedVariables false
 
 theorem l1p_full_lt : L1PFull .lt := by l1p_full
-theorem l1p_pre_lt_lt : L1PPreO .lt .lt := by l1p_pre
-theorem l1p_pre_eq_lt : L1PPreO .lt .eq := by l1p_pre
-theorem l1p_pre_gt_lt : L1PPreO .lt .gt := by l1p_pre
 theorem l1p_part_lt : L1PPart .lt := by l1p_part
-
-theorem l1p_npm_lt : L1PNpm .lt :=
-  l1p_assemble _ l1p_full_lt (l1p_pre_assemble _ l1p_pre_lt_lt l1p_pre_eq_lt l1p_pre_gt_lt) l1p_part_lt
 
 end DepsDev.Proofs.C03
